@@ -251,30 +251,150 @@ pub struct Player {
     pub actions: Box<[Node]>,
 }
 
+// ---- extracted from src/solve/data.rs: struct RegretInfoset ----
+pub struct RegretInfoset {
+    pub cum_regret: Box<[f64]>,
+    pub cum_strat: Box<[f64]>,
+    pub strat: Box<[f64]>,
+}
+
+// value of the traversal of the subtree below `n` entered with the given reaches (recursive calls of
+// recurse_single are bound to it: R5)
+pub uninterp spec fn sub_spec(n: Node, p_chance: f64, p_player: [f64; 2]) -> f64;
+// counterfactual weight of the acting player's regrets: opponent reach x chance reach, negated for
+// player two (payoffs are player one's)
+pub open spec fn mult_spec(num: PlayerNum, p_chance: f64, p_player: [f64; 2]) -> real {
+    match num { PlayerNum::One => rv(p_chance) * rv(p_player[1]), PlayerNum::Two => 0real - rv(p_player[0]) * rv(p_chance) }
+}
+pub open spec fn own_reach(num: PlayerNum, p_player: [f64; 2]) -> f64 { match num { PlayerNum::One => p_player[0], PlayerNum::Two => p_player[1] } }
+// reach vector handed to the continuation of action a: only the acting player's entry is multiplied by sigma_a
 pub open spec fn pnext_ok(num: PlayerNum, p_player: [f64; 2], prob: f64, p_next: [f64; 2]) -> bool {
     match num {
         PlayerNum::One => rv(p_next[0]) == rv(p_player[0]) * rv(prob) && p_next[1] == p_player[1],
         PlayerNum::Two => p_next[0] == p_player[0] && rv(p_next[1]) == rv(p_player[1]) * rv(prob),
     }
 }
-
-// ---- extracted from src/solve/vanilla.rs: fn thread_threshold ----
-pub fn thread_threshold__player_action<'a>(player: &Player, prob: &f64, next: &'a Node, p_chance: f64, p_player: [f64; 2], work: &mut Vec<(&'a Node, f64, [f64; 2])>, mut next_probs: [f64; 2])
+// u is the value of the subtree below `node`, entered with the SAME chance reach and a reach vector
+// in which only the acting player's entry is multiplied by the action's probability
+pub open spec fn child_value(node: Node, num: PlayerNum, p_chance: f64, p_player: [f64; 2], prob: f64, u: f64) -> bool {
+    exists|pn: [f64; 2]| pnext_ok(num, p_player, prob, pn) && u == #[trigger] sub_spec(node, p_chance, pn)
+}
+pub open spec fn exp_one(strat: Seq<f64>, us: Seq<f64>, k: int) -> real decreases k {
+    if k <= 0 { 0real } else { exp_one(strat, us, k - 1) + rv(strat[k - 1]) * rv(us[k - 1]) }
+}
+pub open spec fn exp_cf(strat: Seq<f64>, us: Seq<f64>, mult: real, k: int) -> real decreases k {
+    if k <= 0 { 0real } else { exp_cf(strat, us, mult, k - 1) + rv(us[k - 1]) * mult * rv(strat[k - 1]) }
+}
+// what one visit of a decision node does to its infoset and returns, given the children's values us:
+//   average strategy += own reach x current strategy;  regret_a += mult x u_a - sum_b u_b mult sigma_b;
+//   returned value sum_a sigma_a u_a
+pub open spec fn visit_ok(pl: Player, p_chance: f64, p_player: [f64; 2], before: RegretInfoset, after: RegretInfoset, res: f64) -> bool {
+    let m = mult_spec(pl.num, p_chance, p_player);
+    after.strat@ == before.strat@
+    && after.cum_strat@.len() == before.cum_strat@.len()
+    && (forall|i: int| 0 <= i < before.cum_strat@.len() ==> rv(#[trigger] after.cum_strat@[i]) == rv(before.cum_strat@[i]) + rv(own_reach(pl.num, p_player)) * rv(before.strat@[i]))
+    && after.cum_regret@.len() == before.cum_regret@.len()
+    && exists|us: Seq<f64>| us.len() == pl.actions@.len()
+        && (forall|a: int| 0 <= a < us.len() ==> #[trigger] child_value(pl.actions@[a], pl.num, p_chance, p_player, before.strat@[a], us[a]))
+        && (forall|a: int| 0 <= a < us.len() ==> rv(#[trigger] after.cum_regret@[a]) == rv(before.cum_regret@[a]) + rv(us[a]) * m - exp_cf(before.strat@, us, m, us.len() as int))
+        && rv(res) == exp_one(before.strat@, us, us.len() as int)
+}
+#[verifier::external_body] pub struct ChanceTables { }
+#[verifier::external_body]
+#[verifier::reject_recursive_types(T)]
+pub struct RefCell<T> { t: core::marker::PhantomData<T> }
+impl<T> RefCell<T> {
+    pub uninterp spec fn content(&self) -> T;
+    #[verifier::external_body]
+    pub fn borrow_mut(&self) -> (r: &mut T)
+        ensures *r == self.content(),
+    { unimplemented!() }
+}
+pub trait PlayerRecurse {
+    fn update_cum_strat(&mut self, prob: f64);
+}
+impl PlayerRecurse for RegretInfoset {
+    // contract proved for the real method by unit c08_update_cum_strat
+    #[verifier::external_body]
+    fn update_cum_strat(&mut self, prob: f64)
+        ensures
+            final(self).strat@ == old(self).strat@, final(self).cum_regret@ == old(self).cum_regret@,
+            final(self).cum_strat@.len() == old(self).cum_strat@.len(),
+            old(self).strat@.len() == old(self).cum_strat@.len() ==> forall|i: int| 0 <= i < old(self).cum_strat@.len() ==>
+                rv(#[trigger] final(self).cum_strat@[i]) == rv(old(self).cum_strat@[i]) + rv(prob) * rv(old(self).strat@[i]),
+    { unimplemented!() }
+}
+// contract proved for the real recurse_player by unit c08_recurse_player (values of the continuation
+// named through sub_spec, which the continuation is REQUIRED to return)
+#[verifier::external_body]
+pub fn recurse_player<F: Fn(&Node, [f64; 2]) -> f64>(player: &Player, p_chance: f64, p_player: [f64; 2], strat: &[f64], cum_regret: &mut [f64], rec: F) -> (out: (f64, f64))
+    requires
+        forall|n: &Node, pn: [f64; 2]| #[trigger] rec.requires((n, pn)),
+        forall|n: &Node, pn: [f64; 2], o: f64| #[trigger] rec.ensures((n, pn), o) ==> o == sub_spec(*n, p_chance, pn),
     ensures
-        // exactly one frontier entry per action: the child, the unchanged chance reach, and the reach
-        // vector of ITS path -- only the acting player's entry multiplied by this action's probability
-        final(work)@.len() == old(work)@.len() + 1,
-        final(work)@.take(old(work)@.len() as int) == old(work)@,
-        final(work)@.last().0 == next && final(work)@.last().1 == p_chance, // @ob C06.V.thread_threshold.frontier_reach
-        pnext_ok(player.num, p_player, *prob, final(work)@.last().2), // @ob C06.V.thread_threshold.frontier_reach
+        final(cum_regret)@.len() == old(cum_regret)@.len(),
+        exists|us: Seq<f64>| us.len() == player.actions@.len()
+            && (forall|a: int| 0 <= a < us.len() ==> #[trigger] child_value(player.actions@[a], player.num, p_chance, p_player, strat@[a], us[a]))
+            && (forall|a: int| 0 <= a < us.len() ==> rv(#[trigger] final(cum_regret)@[a]) == rv(old(cum_regret)@[a]) + rv(us[a]) * mult_spec(player.num, p_chance, p_player))
+            && rv(out.0) == exp_one(strat@, us, us.len() as int)
+            && rv(out.1) == exp_cf(strat@, us, mult_spec(player.num, p_chance, p_player), us.len() as int),
+{ unimplemented!() }
+#[verifier::external_body]
+pub fn __rec(node: &Node, chance_infosets: &ChanceTables, player_infosets: [&[RefCell<RegretInfoset>]; 2], p_chance: f64, p_player: [f64; 2]) -> (r: f64)
+    ensures r == sub_spec(*node, p_chance, p_player),
+{ unimplemented!() }
+
+// ---- extracted from src/solve/vanilla.rs: fn recurse_single ----
+pub fn recurse_single__player_arm(player: &Player, chance_infosets: &ChanceTables, player_infosets: [&[RefCell<RegretInfoset>]; 2], p_chance: f64, p_player: [f64; 2]) -> (out: f64)
+    requires
+        player.infoset < (match player.num { PlayerNum::One => player_infosets[0]@, PlayerNum::Two => player_infosets[1]@ }).len(),
+    ensures
+        true,
+{
+broadcast use fl; broadcast use ideal;
+proof { ax_obeys(); ax_rv_lits(); }
+let ghost cell = (match player.num { PlayerNum::One => player_infosets[0]@, PlayerNum::Two => player_infosets[1]@ })[player.infoset as int];
+let ghost before = cell.content();
+proof { assume(before.strat@.len() == player.actions@.len() && before.cum_strat@.len() == before.strat@.len() && before.cum_regret@.len() == before.strat@.len()); }
+
+            // get infoset
+            let mut info = player.num.ind(&player_infosets)[player.infoset].borrow_mut();
+            info.update_cum_strat(*player.num.ind(&p_player));
+            let RegretInfoset {
+                strat, cum_regret, ..
+            } = &mut *info;
+            let (res, sub) = recurse_player(
+                player,
+                p_chance,
+                p_player,
+                strat,
+                &mut **cum_regret,
+                |next: &Node, p_next: [f64; 2]| -> (o: f64) ensures o == sub_spec(*next, p_chance, p_next) {
+                    __rec(next, chance_infosets, player_infosets, p_chance, p_next)
+                },
+            );
+            let ghost mid = *info;
+let ghost n = mid.cum_regret@.len();
+let ghost c1 = mid.cum_regret@;
+for val in it: info.cum_regret.iter_mut() 
+invariant
+    it.snapshot@.remaining().len() == n, 0 <= it.index@ <= n,
+    forall|i: int| 0 <= i < n ==> *(#[trigger] it.snapshot@.remaining()[i]) == c1[i],
+    forall|i: int| 0 <= i < it.index@ ==> rv(*final(#[trigger] it.snapshot@.remaining()[i])) == rv(c1[i]) - rv(sub),
+ensures
+    forall|i: int| 0 <= i < n ==> rv(*final(#[trigger] it.snapshot@.remaining()[i])) == rv(c1[i]) - rv(sub),
 {
 broadcast use fl; broadcast use ideal;
 proof { ax_obeys(); ax_rv_lits(); }
 
-                    let mut next_probs = p_player;
-                    *player.num.ind_mut(&mut next_probs) = *player.num.ind_mut(&mut next_probs) * ( prob);
-                    work.push((next, p_chance, next_probs));
-                }
+                *val = *val - ( sub);
+            }
+            proof {
+    // the infoset visited is the acting player's infoset of this node, and one visit does exactly this to it:
+    assert(visit_ok(*player, p_chance, p_player, before, *info, res)); // @ob C08.V.recurse_single.player_arm
+}
+res
+        }
 
 
 // vacuity canary: must be REJECTED by the verifier (an inconsistent axiom set would accept it)
